@@ -54,6 +54,19 @@ structure Case where
   cpuList : List Nat
   deriving Repr, Inhabited
 
+/-- what the loader makes the amr reader do for a (level, domain) block it owns: cacheline
+    header, one `read_variables` per child cell, footer (the calls for the other readers are
+    interleaved in loader.py, but every reader has its own file and counters) -/
+def amrOwnBlock {m : Type → Type} [Monad m] [RdM m] (ncache ndim : Nat) (st : Trace × Cnt) : m (Trace × Cnt) := do
+  let st ← Generated.amrReadCachelineHeader (ncache := ncache) (ndim := ndim) st
+  let st ← forRangeM (2 ^ ndim) (fun ind st => Generated.amrReadVariables (ind := ind) (ncache := ncache) st) st
+  Generated.amrReadFooter (ncache := ncache) (twotondim := 2 ^ ndim) st
+
+/-- a hydro / grav / rt reader on a block it owns: `read_variables` once per child cell -/
+def varOwnBlock {m : Type → Type} [Monad m] [RdM m] (vars : List VarItem) (ncache ndim : Nat) (st : Trace × Cnt) :
+    m (Trace × Cnt) :=
+  forRangeM (2 ^ ndim) (fun _ st => Generated.readerReadVariables (vars := vars) (ncache := ncache) st) st
+
 /-- run a generated reader method on a file from the given counters -/
 def runOn (f : File) (act : FileM (Trace × Cnt)) (log : List Req) : Except Err ((Trace × Cnt) × List Req) :=
   (act.run f).run log
@@ -151,27 +164,23 @@ def loadCpu (cs : Case) (cpu : Nat) (st : CpuState) : Except Err CpuState := do
       rcs := rcs'
       if ncache > 0 then
         if domain == cpu - 1 then
-          let ((htr, c1), l1) ← runOn amrF (Generated.amrReadCachelineHeader (ncache := ncache) (ndim := cs.ndim) ([], ac)) alog
+          let ((htr, c1), l1) ← runOn amrF (amrOwnBlock ncache cs.ndim ([], ac)) alog
           ac := c1; alog := l1
           let xg := findTags htr "self.xg"
           -- buffers, filled child cell after child cell
-          let mut son : List Rat := []
+          let son : List Rat := (findTags htr "self.son").flatten
           let mut vbuf : List (String × List Rat) := []
-          for ind in List.range twotondim do
-            let ((vtr, c2), l2) ← runOn amrF (Generated.amrReadVariables (ind := ind) (ncache := ncache) ([], ac)) alog
-            ac := c2; alog := l2
-            son := son ++ findTag vtr "self.son"
-            let mut rcs2 : List (Cnt × List Req) := []
-            for (r, (c, lg)) in List.zip cs.meshReaders rcs do
-              let f := r.files.getD (cpu - 1) []
-              let ((rtr, c'), lg') ← runOn f (Generated.readerReadVariables (vars := r.vars.map (·.item)) (ncache := ncache) ([], c)) lg
-              rcs2 := rcs2 ++ [(c', lg')]
-              for v in r.vars do
-                if v.read then
-                  let vals := (findTag rtr (":" ++ v.name)).map (· * v.mag)
-                  vbuf := if vbuf.any (·.1 == v.name) then vbuf.map (fun e => if e.1 == v.name then (e.1, e.2 ++ vals) else e)
-                          else vbuf ++ [(v.name, vals)]
-            rcs := rcs2
+          let mut rcs2 : List (Cnt × List Req) := []
+          for (r, (c, lg)) in List.zip cs.meshReaders rcs do
+            let f := r.files.getD (cpu - 1) []
+            let ((rtr, c'), lg') ← runOn f (varOwnBlock (r.vars.map (·.item)) ncache cs.ndim ([], c)) lg
+            rcs2 := rcs2 ++ [(c', lg')]
+            for v in r.vars do
+              if v.read then
+                -- one trace entry per child cell, in child order
+                let vals := ((findTags rtr (":" ++ v.name)).flatten).map (· * v.mag)
+                vbuf := vbuf ++ [(v.name, vals)]
+          rcs := rcs2
           let n := ncache * twotondim
           -- the amr reader's own variables
           let amrBuf (v : VarSpec) : List Rat :=
@@ -199,8 +208,6 @@ def loadCpu (cs : Case) (cpu : Nat) (st : CpuState) : Except Err CpuState := do
             for b in bufs do
               pcs := pcs.add ("mesh:" ++ b.1) (selectRows sel b.2)
             st := { st with pieces := pcs, ncells := st.ncells + ncells }
-          let ((_, c3), l3) ← runOn amrF (Generated.amrReadFooter (ncache := ncache) (twotondim := twotondim) ([], ac)) alog
-          ac := c3; alog := l3
         else
           let ((_, c1), l1) ← runOn amrF (Generated.amrStepOver (ncache := ncache) (ndim := cs.ndim) (twotondim := twotondim) ([], ac)) alog
           ac := c1; alog := l1
